@@ -37,9 +37,9 @@ var closAlias map[*ssa.Function]string
 // FnString is fn.String() with anonymous-function numbers mapped back to the frozen ones.
 func FnString(fn *ssa.Function) string {
 	if s, ok := closAlias[fn]; ok {
-		return s
+		return aliasTop(fn, s)
 	}
-	return fn.String()
+	return aliasTop(fn, fn.String())
 }
 
 func closureRoles(parent, child *ssa.Function) string {
@@ -204,7 +204,7 @@ func (p *Prog) loadClosureAliases() {
 		if fn.Parent() != nil || len(fn.AnonFuncs) == 0 {
 			continue
 		}
-		frozen, ok := snap[fn.String()]
+		frozen, ok := snap[aliasTop(fn, fn.String())]
 		if !ok {
 			continue
 		}
